@@ -1181,7 +1181,7 @@ func (s *LoadingStore[K, V]) Get(ctx context.Context, key K) (V, error) {
 				if err != nil && !errors.As(err, &notFound) {
 					return Loaded[V]{}, err
 				}
-				if ok {
+				if ok && (expire == 0 || expire > s.timerwheel.clock.NowNano()) {
 					result = s.setShardWithoutLock(shard, h, key, vs, cost, expire, true)
 					entryCost = cost
 					entryExpire = expire
